@@ -231,3 +231,24 @@ for _k, (_tech, _t) in _ROUND9.items():
     if _tech:
         CLAIMS[_k]["technique"] = CLAIMS[_k]["technique"].rstrip() + " + " + _tech
     CLAIMS[_k]["text"] = CLAIMS[_k]["text"].rstrip() + " " + _t
+
+# additions of seed rounds 10 and 11
+_ROUND11 = {
+    "C02": ("module-state / decorator-memo obligations on the parser modules", "Every call of parse returns a tree of its own (no node shared between two parses of one text)."),
+    "C04": ("trace contract on collect_fields._merge (Engine P)", "Merging collected groups never removes a key (response keys keep the place of their first occurrence), loses nothing and appends each group once (all paths)."),
+    "C09": ("trace contract on collect_fields._merge (Engine P)", "Response keys keep the place of their first occurrence when collected groups are merged (all paths), so a repeated top-level key does not move a mutation field's turn."),
+    "C05": ("", "An accepted document is executed once per possible runtime type of every abstract top-level field."),
+    "C06": ("frame obligations: no function of py_gql.validation writes into the schema or the document (alias / mutation analysis with protected roots)",
+            "Validating leaves schema and document untouched (198 functions), so the verdict is a function of the two as they are."),
+    "C11": ("regular-expression language obligation on VALID_NAME_RE + frame obligations on the builder (it writes nothing into nodes, supplied types or a base schema)",
+            "Building / extending leaves what it was given untouched (alias / mutation analysis of every builder function)."),
+    "C14": ("", "The by-name views of every element (field_map, argument_map, enum lookups) list exactly its members, as the same objects, on results and sources."),
+    "C15": ("", "A schema answers its introspection the same before and after other schemas were derived from it."),
+    "C16": ("", "One instrumentation object serving several requests, some of which die, records for every later request what a fresh object would."),
+    "C17": ("", "A polling consumer (cancelled waits on a live source) still receives every event, in order, and the end of the stream."),
+    "C12": ("", "A library exception while serialising a valid schema is a violation; descriptions with CR / CRLF."),
+}
+for _k, (_tech, _t) in _ROUND11.items():
+    if _tech:
+        CLAIMS[_k]["technique"] = CLAIMS[_k]["technique"].rstrip() + " + " + _tech
+    CLAIMS[_k]["text"] = CLAIMS[_k]["text"].rstrip() + " " + _t
